@@ -168,10 +168,47 @@ def run(tier, seed):
         if not v[2]:
             replay = dict(replay, method={k: m[k] for k in ("results", "call", "events", "scan_count")})
             rep.violation("the generated method does not follow the contract of its command (Spec/Contract.v)", replay)
+    # --- C. the annotated statements of EVERY query file of a package (a directory, or a list of paths) become methods, whatever
+    # the files are called, as long as the name is one sqlc reads (ends in .sql, not hidden, not a *.down.sql rollback)
+    TRICKY = ["breakdown.sql", "countdown.sql", "shutdown.sql", "1_down.sql", "x-down.sql", "a.up.sql", "a.DOWN.sql", "down.sql", "downs.sql",
+              "q.sql", "Query.sql", "0.sql", "_x.sql", "a b.sql", "q.sql.sql", "authors.sql"]
+    mf_cases = []
+    for _ in range(40 if tier == "quick" else 1500):
+        names = rng.sample(TRICKY, rng.randint(2, 4))
+        files, expect, k = {}, {}, 0
+        for nm in names:
+            body = ""
+            for _ in range(rng.randint(1, 2)):
+                k += 1
+                cmd = rng.choice(CMDS)
+                sk = rng.choice([x for x in STMTS if not (cmd in (":one", ":many") and (STMTS[x][2] or not STMTS[x][1]))])
+                body += "%s\n%s;\n\n" % (ann(rng.choice(["--", "/*"]), "M%d" % k, cmd), STMTS[sk][0])
+                expect.setdefault(nm, []).append("M%d" % k)
+            files[nm] = body
+        as_list = rng.random() < 0.4
+        paths = ["queries/" + nm for nm in names] if as_list else "queries"
+        cfg = json.dumps({"version": "1", "packages": [{"path": "db", "engine": "postgresql", "schema": "schema.sql", "queries": paths}]})
+        job = {"op": "generate", "summary": True, "nofiles": True, "files": dict({"sqlc.json": cfg, "schema.sql": SCHEMA}, **{"queries/" + nm: t for nm, t in files.items()})}
+        mf_cases.append((files, expect, as_list, job))
+    for (files, expect, as_list, job), r in zip(mf_cases, run_harness([c[3] for c in mf_cases])):
+        rep.case(("multifile", json.dumps(files, sort_keys=True), as_list), nontrivial=True,
+                 sample={"query_files": sorted(files), "ok": r.get("ok")} if len(rep.samples) < 8 else None)
+        rep.count("multi-file:%s" % ("list" if as_list else "directory"))
+        replay = {"query_files": files, "as_path_list": as_list, "stderr": r.get("stderr"), "panic": r.get("panic")}
+        if "panic" in r or not r.get("ok"):
+            rep.violation("a package of well-formed annotated statements in %d query files is rejected: %s" % (len(files), (r.get("stderr") or r.get("panic") or "")[:120]), replay)
+            continue
+        got = {}
+        for f, sm in r["summary"].items():
+            if f.startswith("db/") and f.endswith(".sql.go"):
+                got[f[3:-3]] = sorted(m["name"] for m in sm.get("methods", []) if m["recv"] == "Queries")
+        want = {nm: sorted(v) for nm, v in expect.items()}
+        if got != want:
+            rep.violation("the methods per query file %s are not the annotated statements %s" % (got, want), replay)
     rep.extra["exhaustive"] = tier != "quick"
     if getattr(rep, "proof_broken", None) and not rep.violations:
         rep.violation("proof obligation no longer checks: " + rep.proof_broken, {"theorem_file": "coq/theories/Props/C11.v", "detail": info}, no_input=True)
     return rep.finish("proof", ob, dis, checker_cmd(PROP),
-                      rule="(A) annotation lines: every command x comment syntax x name form plus malformed variants and random token strings, through metadata.Parse with three CommentSyntax settings, against the Gallina transcription; (B) the cross product 5 commands x 10 statement shapes (SELECT/INSERT/UPDATE/DELETE/TRUNCATE, with/without RETURNING, 0..3 parameters, 1..3 result columns) x 2 comment syntaxes x prepared x interface x 8 texts in front of the annotation (comments, multi-line block comments, blank lines, a preceding annotated statement) through sqlc generate (complete in thorough, a sample of 240 cells in quick), the emitted method's structure read back with go/parser and judged by Spec/Contract.v",
+                      rule="(A) annotation lines: every command x comment syntax x name form plus malformed variants and random token strings, through metadata.Parse with three CommentSyntax settings, against the Gallina transcription; (B) the cross product 5 commands x 10 statement shapes (SELECT/INSERT/UPDATE/DELETE/TRUNCATE, with/without RETURNING, 0..3 parameters, 1..3 result columns) x 2 comment syntaxes x prepared x interface x 8 texts in front of the annotation (comments, multi-line block comments, blank lines, a preceding annotated statement) through sqlc generate (complete in thorough, a sample of 240 cells in quick), the emitted method's structure read back with go/parser and judged by Spec/Contract.v; (C) packages of 2-4 query files with unusual but valid file names (directory or path list): the methods per emitted file are the annotated statements of that file",
                       assumptions=["the template half of the property is tied to the code by reading the emitted Go back (go/parser), not by a model of text/template",
                                    "query names are ASCII (unicode.IsLetter/IsDigit outside ASCII is not modelled)"])
